@@ -63,7 +63,7 @@ MANIFEST = {
                  "two differential/oracle rigs",
     "design_ref": "5/C06",
 }
-MODULES = ["PrimaiteModel.Lemmas.C06Cut", "PrimaiteModel.Props.C06", "PrimaiteModel.Props.C06Class", "PrimaiteModel.Props.C06Deny", "PrimaiteModel.Props.C06Net"]
+MODULES = ["PrimaiteModel.Lemmas.C06Cut", "PrimaiteModel.Props.C06", "PrimaiteModel.Props.C06Class", "PrimaiteModel.Props.C06Deny", "PrimaiteModel.Props.C06Rtr", "PrimaiteModel.Props.C06Net", "PrimaiteModel.Props.C06Reach"]
 EXE = "drv_c06"
 
 
